@@ -247,8 +247,29 @@ BATTERIES['Loaders'] = [
   ('load_<kind>_device', 'List.concat (map (fun d => enc_lout (@M@.load_device_gen 3 d)) bdevs)'),
   ('load_data', 'enc_louts (@M@.load_data_gen 3 (firstn 3 bdevs)) ++ enc_louts (@M@.load_data_gen 3 (firstn 1 bdevs ++ firstn 1 (skipn 22 bdevs) ++ firstn 2 (skipn 40 bdevs) ++ firstn 1 (skipn 60 bdevs))) ++ enc_louts (@M@.load_data_gen 3 (firstn 2 (skipn 64 bdevs) ++ firstn 1 (skipn 20 bdevs))) ++ enc_louts (@M@.load_data_gen 3 [])'),
 ]
-EXTRA = {'Loaders': LOADERS, 'Solve': SOLVE, 'Constraints': KIDS + CONS, 'DeviceSet': KIDS, 'MFDeviceSet': KIDS, 'Functions': KIDS}
-NAMES = {'projection': 'Projection', 'thermal': 'Thermal', 'deviceset': 'DeviceSet', 'mfdeviceset': 'MFDeviceSet', 'functions': 'Functions', 'classes': 'Classes', 'storage': 'Storage', 'constraints': 'Constraints', 'solve': 'Solve', 'utils': 'Utils', 'loaders': 'Loaders'}
+BASEDEV = '''
+From Coq Require Import String.
+Import List ListNotations.
+From DK.Model Require Import LabelOps.
+Local Open Scope Q_scope.
+Definition lf (i : String.string) (k : nat) : itree nat := INode i k None.
+Definition nd (i : String.string) (ks : list (itree nat)) : itree nat := INode i 0%nat (Some ks).
+Definition trees : list (itree nat) :=
+  [lf "a" 1; nd "s" []; nd "s" [lf "a" 1; lf "bb" 2]; nd "root" [lf "a" 1; nd "in" [lf "b" 2; nd "m" [lf "e" 3; lf "h" 4]]; lf "c" 5];
+   nd "x" [nd "y" [nd "z" [lf "deep" 7]]; lf "a" 8; nd "y" [lf "a" 9]]]%string.
+Definition enc_str (s : String.string) : list Q := inject_Z (Z.of_nat (String.length s)) :: map (fun c => inject_Z (Z.of_nat (Ascii.nat_of_ascii c))) (String.list_ascii_of_string s).
+Definition leafsQ : list (String.string * nat) := [("r.a", 1); ("r.in.b", 2); ("r.in.m.e", 3); ("r.a", 4); ("r.c", 5); ("q.in.b", 6)]%string%nat.
+Definition rm (pat k : String.string) : bool := String.prefix pat k.
+'''
+BATTERIES['BaseDevice'] = [
+  ('leaf_devices', 'List.concat (map (fun fuel => List.concat (map (fun t => List.concat (map (fun kt => enc_str (fst kt) ++ enc_n (it_payload (snd kt))) (@M@.leaf_devices_gen fuel t))) trees)) [5%nat; 4%nat; 2%nat; 1%nat; 0%nat])'),
+  ('map', 'List.concat (map (fun sh => List.concat (map (fun kr => enc_str (fst kr) ++ enc_v (snd kr)) (@M@.map_gen leafsQ sh [1; 2; 3; 4; 5; 6; 7; 8; 9; 10; 11; 12]))) [(6%nat, 2%nat); (4%nat, 3%nat); (6%nat, 1%nat); (2%nat, 6%nat)])'),
+  ('mapDevices', 'List.concat (map (fun sh => List.concat (map (fun kr => enc_str (fst (fst kr)) ++ enc_n (snd (fst kr)) ++ enc_v (snd kr)) (@M@.mapDevices_gen leafsQ sh [1; 2; 3; 4; 5; 6; 7; 8; 9; 10; 11; 12]))) [(6%nat, 2%nat); (4%nat, 3%nat); (2%nat, 6%nat)])'),
+  ('get', 'List.concat (map (fun nm => match @M@.get_gen leafsQ nm with Some k => enc_n k | None => [-1] end) ["a"; "b"; "r.a"; "in.b"; "zz"; ""; "e"; "c"]%string)'),
+  ('find', 'List.concat (map (fun nm => 99 :: List.concat (map enc_n (@M@.find_gen rm leafsQ nm))) ["r"; "r.in"; "q"; "zz"; ""; "r.a"]%string)'),
+]
+EXTRA = {'BaseDevice': BASEDEV, 'Loaders': LOADERS, 'Solve': SOLVE, 'Constraints': KIDS + CONS, 'DeviceSet': KIDS, 'MFDeviceSet': KIDS, 'Functions': KIDS}
+NAMES = {'projection': 'Projection', 'thermal': 'Thermal', 'deviceset': 'DeviceSet', 'mfdeviceset': 'MFDeviceSet', 'functions': 'Functions', 'classes': 'Classes', 'storage': 'Storage', 'constraints': 'Constraints', 'solve': 'Solve', 'utils': 'Utils', 'loaders': 'Loaders', 'basedevice': 'BaseDevice'}
 
 
 def supported(w):
